@@ -310,9 +310,16 @@ theorem Spec.step_congr (o : Op) (now : Nat) (d1 d2 : Db) (h : Spec.purge now d1
     Spec.step o now d1 = Spec.step o now d2 := by
   simp only [Spec.step, h]
 
-/-- REFINEMENT OVER ALL INTERLEAVINGS: when every storage function has a lazy test and the sweeper re-checks, every
-    run of client calls interleaved in any way with sweeper phases returns exactly what the instant-expiry store returns. -/
-theorem run_refines (c : Cfg) (hl : ∀ o, lazyOp c o = true) (hr : c.sweeperRechecks = true) (steps : List Step) (m : M) (db : Db) (t0 : Nat)
+/-- every client call of the run goes through a storage function that has a lazy test -/
+def allLazy (c : Cfg) : List Step → Bool
+  | [] => true
+  | .op o _ :: r => lazyOp c o && allLazy c r
+  | _ :: r => allLazy c r
+
+/-- REFINEMENT OVER ALL INTERLEAVINGS: when every storage call of the run has a lazy test and the sweeper re-checks, the
+    run — client calls interleaved in any way with sweeper phases — returns exactly what the instant-expiry store returns. -/
+theorem run_refines_of (c : Cfg) (hr : c.sweeperRechecks = true) (steps : List Step) (m : M) (db : Db) (t0 : Nat)
+    (hl : allLazy c steps = true)
     (hn : NodupKeys m.shard.data) (hv : Spec.purge t0 m.shard.data = Spec.purge t0 db) (hm : monotoneFrom t0 steps = true) :
     trace c m steps = Spec.trace db steps := by
   induction steps generalizing m db t0 with
@@ -322,25 +329,38 @@ theorem run_refines (c : Cfg) (hl : ∀ o, lazyOp c o = true) (hr : c.sweeperRec
     cases st with
     | op o now =>
       simp only [Step.time] at hm
+      simp only [allLazy, Bool.and_eq_true] at hl
       have hv' := purge_eq_mono t0 now _ _ hm.1 hv
-      have href := step_refines c o now m.shard hn (Or.inl (hl o))
+      have href := step_refines c o now m.shard hn (Or.inl hl.1)
       have hcg := Spec.step_congr o now _ _ hv'
       simp only [trace, next, Spec.trace]
       rw [href.2, hcg]
       congr 1
-      apply ih _ _ now (step_nodup c o now m.shard hn) _ hm.2
+      apply ih _ _ now hl.2 (step_nodup c o now m.shard hn) _ hm.2
       simp only []
       rw [href.1, hcg, ← hcg, ← href.1, purge_idem]
     | collect now =>
       simp only [Step.time] at hm
+      simp only [allLazy] at hl
       simp only [trace, next, Spec.trace]
-      exact ih _ _ now hn (purge_eq_mono t0 now _ _ hm.1 hv) hm.2
+      exact ih _ _ now hl hn (purge_eq_mono t0 now _ _ hm.1 hv) hm.2
     | delete now =>
       simp only [Step.time] at hm
+      simp only [allLazy] at hl
       simp only [trace, next, Spec.trace]
-      apply ih _ _ now (sweepDelete_nodup c now m.pending m.shard hn) _ hm.2
+      apply ih _ _ now hl (sweepDelete_nodup c now m.pending m.shard hn) _ hm.2
       simp only []
       rw [sweepDelete_view c hr now now (Nat.le_refl _) m.pending m.shard hn]
       exact purge_eq_mono t0 now _ _ hm.1 hv
+
+theorem allLazy_of_all (c : Cfg) (hl : ∀ o, lazyOp c o = true) (steps : List Step) : allLazy c steps = true := by
+  induction steps with
+  | nil => rfl
+  | cons st r ih => cases st <;> simp [allLazy, hl, ih]
+
+theorem run_refines (c : Cfg) (hl : ∀ o, lazyOp c o = true) (hr : c.sweeperRechecks = true) (steps : List Step) (m : M) (db : Db) (t0 : Nat)
+    (hn : NodupKeys m.shard.data) (hv : Spec.purge t0 m.shard.data = Spec.purge t0 db) (hm : monotoneFrom t0 steps = true) :
+    trace c m steps = Spec.trace db steps :=
+  run_refines_of c hr steps m db t0 (allLazy_of_all c hl steps) hn hv hm
 
 end Ferrous.Exp
